@@ -355,6 +355,9 @@ func c10r4(c *Ctx) {
 				if call, ok := iff.Cond.(*ssa.Call); ok {
 					if o := calleeObj(call); o != nil && o.Name() == "Before" {
 						okE = append(okE, Edge{iff.Block(), 0})
+					} else if sc := call.Call.StaticCallee(); sc != nil && len(sc.Blocks) > 0 && funcPkgPath(sc) == funcPkgPath(fn) && onlyTrueWhenNilOrBefore(sc) {
+						// the test spelled as a helper of the package: `createdBefore(cfg, selected)`
+						okE = append(okE, Edge{iff.Block(), 0})
 					}
 				}
 				if x, eq, ok := nilCmp(iff.Cond); ok {
@@ -1088,4 +1091,85 @@ func c10r10(c *Ctx) {
 	}
 	c.Check("selector tests on PeerAuthentication found", token.NoPos, n >= 2, "fewer nil tests on a PeerAuthentication selector than confirmed by hand (addPeerAuthentication, convertedSelectorPeerAuthentications)")
 	c.Floor(3)
+}
+
+
+// onlyTrueWhenNilOrBefore: a bool helper all of whose possibly-true answers are "a parameter is nil" or the result of
+// Time.Before: every return leaf is the constant false, a `param == nil` comparison, a call of Before, or the constant
+// true in a block under the true edge of such a test.
+func onlyTrueWhenNilOrBefore(h *ssa.Function) bool {
+	good := func(v ssa.Value) bool {
+		if call, ok := v.(*ssa.Call); ok {
+			if o := calleeObj(call); o != nil && o.Name() == "Before" {
+				return true
+			}
+		}
+		if x, eq, ok := nilCmp(v); ok && eq {
+			if _, isPar := x.(*ssa.Parameter); isPar {
+				return true
+			}
+		}
+		return false
+	}
+	var okE []Edge
+	for _, iff := range allIfs(h) {
+		v, neg := stripNot(iff.Cond)
+		if good(v) && !neg {
+			okE = append(okE, Edge{iff.Block(), 0})
+		}
+		if x, eq, ok := nilCmp(iff.Cond); ok {
+			if _, isPar := x.(*ssa.Parameter); isPar {
+				idx := 1
+				if eq {
+					idx = 0
+				}
+				okE = append(okE, Edge{iff.Block(), idx})
+			}
+		}
+	}
+	n := 0
+	for _, b := range h.Blocks {
+		r, ok := b.Instrs[len(b.Instrs)-1].(*ssa.Return)
+		if !ok {
+			continue
+		}
+		if len(r.Results) != 1 {
+			return false
+		}
+		n++
+		var check func(v ssa.Value, blk *ssa.BasicBlock, d int) bool
+		check = func(v ssa.Value, blk *ssa.BasicBlock, d int) bool {
+			if d > 6 {
+				return false
+			}
+			if k, isC := constBool(v); isC {
+				return !k || underEdges(h, blk, okE)
+			}
+			if good(v) {
+				return true
+			}
+			if ph, ok := v.(*ssa.Phi); ok {
+				for j, e := range ph.Edges {
+					pb := ph.Block().Preds[j]
+					if k, isC := constBool(e); isC && k {
+						// true arriving over the true edge of a good test
+						if iff := ifOf(pb); iff != nil && pb.Succs[0] == ph.Block() {
+							if cv, neg := stripNot(iff.Cond); good(cv) && !neg {
+								continue
+							}
+						}
+					}
+					if !check(e, pb, d+1) {
+						return false
+					}
+				}
+				return true
+			}
+			return false
+		}
+		if !check(retVal(r, 0), b, 0) {
+			return false
+		}
+	}
+	return n > 0
 }
